@@ -135,7 +135,7 @@ def conv_mtf(which):
     cv = get('prysm.convolution')
     otf = get('prysm.otf')
     m, n = int(rng.integers(1, 10)), int(rng.integers(1, 10))
-    o, o2, h = rng.standard_normal((m, n)), rng.standard_normal((m, n)), rng.random((m, n))
+    o, o2, h = vary_layout(rng, rng.standard_normal((m, n))), rng.standard_normal((m, n)), vary_layout(rng, rng.random((m, n)))     # any memory layout
     tol = dict(rtol=1e-9, atol=1e-9)
     if which == 'conv-algebra':
         a, b = float(rng.standard_normal()), float(rng.standard_normal())
